@@ -14,6 +14,78 @@ def seq(prop, variant, prec, n, grid, forced=0, vkind=0, family='pat', slices=NS
     return out
 
 
+def sjob(prop, shape, P, bound, prec='d', variant='s', **cfg):
+    args = ['--prop', prop, '--shape', shape, '--P', str(P), '--bound', str(bound)]
+    for k, v in cfg.items():
+        args += ['--' + k, str(v)]
+    return {'engine': 'mcsched/mcsched.c', 'variant': variant, 'prec': prec, 'args': args}
+
+
+def sched_catalogue(prop, tier, drv=0, precs_extra=True):
+    """Engine S job catalogue K1..K13 (DESIGN.md 2.1) for one property"""
+    j = []
+    b2 = 2
+    q = tier == 'quick'
+    # K1 chains: pure linear pipeline
+    for n in (3, 4, 5):
+        j.append(sjob(prop, 'chain%d' % n, 2, b2, drv=drv))
+    j.append(sjob(prop, 'chain4', 3, 1 if q else 2, drv=drv))
+    j.append(sjob(prop, 'uchain5', 2, b2, drv=drv, vk=1))
+    # K2 two leaves + root, wide forks
+    j.append(sjob(prop, 'fork3', 2, b2, drv=drv)); j.append(sjob(prop, 'fork3', 3, b2, drv=drv))
+    j.append(sjob(prop, 'sfork4', 2, b2, drv=drv)); j.append(sjob(prop, 'fork5', 3, 1 if q else 2, drv=drv))
+    # K3 binary tree
+    j.append(sjob(prop, 'tree7', 2, 1 if q else 2, drv=drv)); j.append(sjob(prop, 'utree7', 2, b2 if not q else 1, drv=drv, vk=1))
+    j.append(sjob(prop, 'tree7', 3, 1, drv=drv))
+    # K4 supernode spanning two panels (panel width 2 needs panel_size 4 on tiny n)
+    j.append(sjob(prop, 'lower5', 2, b2, drv=drv, w=4, ms=4)); j.append(sjob(prop, 'lower6', 2, 1 if q else 2, drv=drv, w=4, ms=6, vk=1))
+    j.append(sjob(prop, 'dense5', 2, 1 if q else 2, drv=drv, w=6, ms=5))
+    # K4b (added after seeded change C03/2 was missed): width-2 panels above two finished leaves, a late column reaching a busy column through
+    # the L-structure of a finished leaf
+    K4B = 'pat:6:100001011000101100001110000111001011'
+    j.append(sjob(prop, K4B, 2, b2, drv=drv, w=4, ms=4)); j.append(sjob(prop, K4B, 2, b2, drv=drv, w=4, ms=4, vk=1)); j.append(sjob(prop, K4B, 3, 1, drv=drv, w=4, ms=1))
+    # K5 relaxed supernodes that are not etree paths
+    j.append(sjob(prop, 'relax6', 2, b2, drv=drv, relax=3)); j.append(sjob(prop, 'relax6', 3, 1, drv=drv, relax=3)); j.append(sjob(prop, 'tree7', 2, 1, drv=drv, relax=3))
+    # K6 off-diagonal pivots (generic values, u=1) vs diagonal (vk=1); K7 singleton supernodes, double pruning
+    j.append(sjob(prop, 'dense4', 2, b2, drv=drv, ms=1)); j.append(sjob(prop, 'dense5', 2, 1 if q else 2, drv=drv, ms=1)); j.append(sjob(prop, 'dense4', 3, 1 if q else 2, drv=drv, ms=1))
+    j.append(sjob(prop, 'dense4', 2, b2, drv=drv, ms=4, vk=1, u=0.1))
+    # K8 independent trees
+    j.append(sjob(prop, 'two6', 2, b2 if not q else 1, drv=drv)); j.append(sjob(prop, 'two6', 3, 1, drv=drv)); j.append(sjob(prop, 'two8', 3, 1, drv=drv))
+    # K9 zero pivot in the middle (explicit zeros: structure present)
+    j.append(sjob(prop, 'chain4', 2, b2, drv=drv, vk=4)); j.append(sjob(prop, 'tree7', 2, 1, drv=drv, vk=4)); j.append(sjob(prop, 'dense4', 2, 1, drv=drv, vk=4, ms=1))
+    # K10 more threads than columns
+    j.append(sjob(prop, 'dense1', 3, 2, drv=drv)); j.append(sjob(prop, 'dense2', 3, 1 if q else 2, drv=drv)); j.append(sjob(prop, 'chain3', 4, 1, drv=drv))
+    # dynamic supernode storage
+    j.append(sjob(prop, 'fork3', 2, b2, drv=drv, dyn=1)); j.append(sjob(prop, 'tree7', 2, 1, drv=drv, dyn=1)); j.append(sjob(prop, 'lower5', 2, 1 if q else 2, drv=drv, w=4, ms=4, dyn=1))
+    # other precisions: K1-K4 + K8 (the twins are separate translation units)
+    for p in 'scz':
+        j.append(sjob(prop, 'chain4', 2, 1 if q else 2, prec=p, drv=drv)); j.append(sjob(prop, 'fork3', 2, b2, prec=p, drv=drv))
+        j.append(sjob(prop, 'tree7', 2, 1, prec=p, drv=drv)); j.append(sjob(prop, 'lower5', 2, 1 if q else 2, prec=p, drv=drv, w=4, ms=4)); j.append(sjob(prop, 'two6', 3, 1, prec=p, drv=drv))
+    if not q:
+        # K13: all full-diagonal 3x3 patterns, P=2, bound 1
+        for bits in range(64):
+            pat = ['0'] * 9; off = [1, 2, 3, 5, 6, 7]
+            for d in (0, 4, 8): pat[d] = '1'
+            for k in range(6):
+                if bits >> k & 1: pat[off[k]] = '1'
+            j.append(sjob(prop, 'pat:3:' + ''.join(pat), 2, 1, drv=drv))
+        j.append(sjob(prop, 'dense4', 2, 3, drv=drv, ms=1)); j.append(sjob(prop, 'fork3', 2, 3, drv=drv)); j.append(sjob(prop, 'chain4', 2, 3, drv=drv))
+        j.append(sjob(prop, 'fork4', 3, 2, drv=drv)); j.append(sjob(prop, 'tree7', 3, 2, drv=drv))
+    return j
+
+
+def jobs_C03(tier):
+    j = sched_catalogue('C03', tier, drv=0)
+    j += [sjob('C03', 'tree7', 2, 1, drv=1), sjob('C03', 'lower5', 2, 1, drv=2, w=4, ms=4)]
+    return j
+
+
+def jobs_C04(tier):
+    j = sched_catalogue('C04', tier, drv=0)
+    j += [sjob('C04', 'tree7', 2, 1, drv=1), sjob('C04', 'fork3', 3, 2, drv=2)]
+    return j
+
+
 def jobs_C02(tier):
     j = []
     if tier == 'quick':
@@ -36,6 +108,7 @@ def jobs_C02(tier):
         j += seq('C02', 'q', 'd', 4, 'quick', forced=1)
         j += seq('C02', 'ql', 'd', 3, 'full', forced=1)
         j += seq('C02', 'qv', 'd', 4, 'quick', forced=0)
+    j += sched_catalogue('C02', tier, drv=0)
     return j
 
 
@@ -56,6 +129,7 @@ def jobs_C09(tier):
             j += seq('C09', 'q', p, 0, 'full', family='cat')
         j += seq('C09', 'q', 'd', 4, 'quick', forced=1)
         j += seq('C09', 'ql', 'd', 3, 'full', forced=1)
+    j += sched_catalogue('C09', tier, drv=0)
     return j
 
 
@@ -80,6 +154,7 @@ def jobs_C01(tier):
             j += seq('C01', 'q', p, 4, 'quick')
             j += seq('C01', 'q', p, 0, 'full', family='cat')
             j += seq('C01', 'qt', p, 3, 'quick')
+    j += sched_catalogue('C01', tier, drv=1)
     return j
 
 
@@ -100,6 +175,7 @@ def jobs_C05(tier):
             j += seq('C05', 'qh', p, 0, 'full', family='cat')
         j += seq('C05', 'qh', 'd', 4, 'full', forced=0)
         j += seq('C05', 'ql', 'd', 3, 'full', forced=1)
+    j += sched_catalogue('C05', tier, drv=0)
     return j
 
 
@@ -164,6 +240,16 @@ SPECS = {
     'C16': {'jobs': jobs_C16, 'level': 'exploration', 'rule': RULE_SEQ + '; only patterns with a full diagonal, values row- and column-diagonally dominant, SymmetricMode=YES, ordering MMD(A^T+A), u=0',
             'assumptions': ['fill bound = values actually stored per block of the Cholesky prediction (relax=1) and the slot monitor on every allocation (all relax)'],
             'deadline': {'quick': 600, 'thorough': 3 * 3600}},
+    'C03': {'jobs': jobs_C03, 'level': 'model_checking',
+            'rule': 'stateless preemption-bounded DFS (CHESS style) over ALL interleavings of the hooked synchronisation/protocol points of the real factorization, per catalogue job (shape x threads x bound x options); states = distinct global event sequences, transitions = scheduler steps; in every execution: event monitors (consume-before-release/pivot, update twice, write-while-read, I1/I2/I2b on the real scheduler structures), ASan, and the C02 residual of the returned factors',
+            'assumptions': ['sequential consistency; neither store buffering nor compiler reordering around the volatile flag store is modelled',
+                            'n <= 8 harnesses, preemption bound as stated per job (bound completed is reported per job)',
+                            'waiting is modelled as blocking at the flag test; fruitless polls of the task queue park the poller until the queue changes'],
+            'deadline': {'quick': 900, 'thorough': 4 * 3600}},
+    'C04': {'jobs': jobs_C04, 'level': 'model_checking',
+            'rule': 'same exploration as C03; in every execution: deadlock (no enabled thread) / runaway detection by the scheduler, exactly-once accounting of panels, columns, pivots and releases, tasks_remain == untaken panels at every scheduler return, queue bounds, every created thread joined',
+            'assumptions': ['sequential consistency', 'CPU oversubscription / injected delays of the property text are replaced by exhaustive bounded schedules'],
+            'deadline': {'quick': 900, 'thorough': 4 * 3600}},
     'C09': {'jobs': jobs_C09, 'level': 'exploration', 'rule': RULE_SEQ,
             'assumptions': ['checker wellformed() implements the statement literally; n <= 12'],
             'deadline': {'quick': 600, 'thorough': 3 * 3600}},
